@@ -1,18 +1,18 @@
 SPECIFICATION Spec
-CONSTANTS Names = {"n1", "n2"}
-          Cids = {"A", "B"}
-          Forms = {"b36", "b58"}
+CONSTANTS Names = {"n1","n2"}
+          Cids = {"A"}
+          Forms = {"b36"}
           RSeg = {"x"}
           LenRV = 0
           LenRR = 0
           TrR = {FALSE}
-          TTLs = {0, 1, 2}
-          SeqExplicit = {1, 2}
-          CacheSizes = {0, 1, 2}
-          MaxTTLCaps = {0, 1}
-          Depths = {1, 2, 3}
-          MaxNow = 2
-          MaxSeq = 2
+          TTLs = {0,1}
+          SeqExplicit = {1}
+          CacheSizes = {0,1,2}
+          MaxTTLCaps = {0}
+          Depths = {1,2}
+          MaxNow = 1
+          MaxSeq = 1
           Devs = {}
 INVARIANTS ChainResult RecursionErrorIffTooLong ReadYourPublish MinNonZeroTTL CacheCoherent DsRoutingAgree
            ExplicitSeqMustIncrease PublishStores CacheBounded
